@@ -71,6 +71,14 @@ def gen_grid(rng, kinds, N, allow_minmax=False):
     return g
 
 
+def rand_constraint_scale(rng, c):
+    """scalar scale, or (vector-valued constraints) one scale per element"""
+    n = len(c["lhs"])
+    if n >= 2 and rng.random() < 0.4:
+        return [rnd(rng, 0.2, 8.0, 3) for _ in range(n)]
+    return rnd(rng, 0.2, 8.0, 3)
+
+
 def gen_horizon(rng, kinds, params, variables, which):
     kind = rng.choice(kinds)
     if which == "t0":
